@@ -470,3 +470,42 @@ class RecordingNames(dict):
     def __contains__(self, key):
         self.asked.append(key)
         return super().__contains__(key)
+
+
+def build_op(impl, t):
+    """Specification tree (JSON form) -> dataclass tree, for host-supplied ASTs (ast_names)."""
+    from .unparse import py_value
+    A = impl['ast_ops']
+    k = t['k']
+    ch = [build_op(impl, c) for c in t.get('ch', [])]
+    if k == 'val':
+        v = t['v']
+        if v['t'] == 'dec':
+            import decimal
+            return A.ValueOp(impl['custom_types'].Decimal(decimal.Decimal((v['sign'], tuple(v['digs']), v['exp']))))
+        return A.ValueOp(py_value(v, [], {}))
+    if k == 'noop':
+        return A.NoOp()
+    if k == 'code':
+        return A.CodeOp(ch)
+    if k == 'bin':
+        return A.BinOp(t['op'], ch[0], ch[1])
+    if k == 'un':
+        return A.UnaryOp(t['op'], ch[0])
+    if k == 'assign':
+        return A.AssignOp(t['name'], ch[0])
+    if k == 'short':
+        return A.ShortOp(t['name'], t['op'], ch[0])
+    if k == 'name':
+        return A.NameOp(t['name'])
+    if k == 'if':
+        return A.IfExprOp(cond=ch[0], op1=ch[1], op2=ch[2])
+    if k == 'slice':
+        return A.SliceOp(ch[0], ch[1], ch[2])
+    if k == 'call':
+        return A.CallOp(t['name'], ch)
+    if k == 'dict':
+        return A.DictOp([(ch[i], ch[i + 1]) for i in range(0, len(ch), 2)])
+    if k == 'lambda':
+        return A.LambdaOp(args=[A.NameOp(p) for p in t['params']], expr=ch[0])
+    raise ValueError(k)
